@@ -26,6 +26,12 @@ TEXT = {
             "re-iteration and operand/rank-list immutability; all pairs of leaf fibers over shape<=2 (quick) or <=3 "
             "(thorough) enumerated completely.",
             "Trusts the builders and the per-coordinate state model; shapes<=7, k<=4; U format only on owned fibers."),
+    "C05": ("Hypothesis PBT: populate loops with generated body plans vs a content-override model, observed at every yield",
+            "Generated destination/source pairs of depth 1-3 (every destination route, source format C/U, explicit defaults, "
+            "empty sub-fibers) and loop-body plans; offered sequence, payload/reference identity, content override, "
+            "leftover elements, untouched elements, source immutability, well-formedness and rank consistency at every "
+            "yield and after the loop.",
+            "Source and destination share depth/shape/default; unowned destinations depth<=2; start_pos only 1-level."),
     "C07": ("Hypothesis PBT: traversal requests vs list model (presented / dense), payload identity, snapshot deltas",
             "Generated fibers (leaf / 2-level, C / U format, active ranges, explicit defaults) with 1-5 traversal requests "
             "each, covering all iterators, reference forms, dense co-iteration, project / prune and lazy re-iteration, "
